@@ -25,6 +25,13 @@ Variables (sa sb : N).                 (* split = (((high - low) >> sa) * pred) 
 Variable PS : Type.
 Variable pget : PS -> N.
 Variable pupd : PS -> bool -> PS.
+(* what differs between BinaryEntropyCodec and FPAQCodec around the same coder: the predictor state
+   change at the start of a chunk, the chunk length and scratch-buffer size chosen for a block of
+   [count] bytes, the decoder's acceptance test of a chunk's payload size *)
+Variable chunk_reset : PS -> PS.
+Variable chunk_len_of : N -> N.
+Variable buf_cap_of : N -> N.
+Variable dec_accepts : N -> N -> bool.
 
 Definition split_of (low high pred : N) : N :=
   N.shiftr ((N.shiftr (sub64 high low) sa * pred) mod W64) sb.
@@ -82,7 +89,7 @@ Fixpoint write_chunks (fuel : nat) (len cap : N) (e : est) (block : list N) (acc
     | _ =>
       let chunk := firstn (N.to_nat len) block in
       let rest := skipn (N.to_nat len) block in
-      match enc_bytes cap (mkE (e_low e) (e_high e) [] (e_ps e)) chunk with
+      match enc_bytes cap (mkE (e_low e) (e_high e) [] (chunk_reset (e_ps e))) chunk with
       | None => None
       | Some e1 =>
           let out := acc ++ varint (N.of_nat (length (e_buf e1))) ++ e_buf e1 in
@@ -100,7 +107,7 @@ Definition encode (ps0 : PS) (block : list N) : option (list N) :=
   let count := N.of_nat (length block) in
   if count =? 0 then Some [] else
   if 1073741824 <? count then None else
-  match write_chunks (length block) (chunk_len count) (buf_size count) (mkE 0 TOP [] ps0) block [] with
+  match write_chunks (length block) (chunk_len_of count) (buf_cap_of count) (mkE 0 TOP [] ps0) block [] with
   | None => None
   | Some (out, e) => Some (out ++ final56 (e_low e))
   end.
@@ -152,7 +159,7 @@ Definition read_varint (s : list N) : option (N * list N) := read_varint_f 4 0 0
 Inductive dres := DOk (block : list N) (rest : list N) | DInvalid | DEos.
 
 (* the loop of Read *)
-Fixpoint read_chunks (fuel : nat) (len bufsz : N) (low high : N) (ps : PS) (remaining : N) (s : list N) (acc : list N) : dres :=
+Fixpoint read_chunks (fuel : nat) (len count : N) (low high : N) (ps : PS) (remaining : N) (s : list N) (acc : list N) : dres :=
   match fuel with
   | O => DOk acc s
   | S f =>
@@ -161,19 +168,29 @@ Fixpoint read_chunks (fuel : nat) (len bufsz : N) (low high : N) (ps : PS) (rema
     match read_varint s with
     | None => DEos
     | Some (sz, s1) =>
-      if bufsz <? sz then DInvalid else
+      if negb (dec_accepts count sz) then DInvalid else
       if N.of_nat (length s1) <? 7 + sz then DEos else
       let cur := be_val (firstn 7 s1) in
       let buf := firstn (N.to_nat sz) (skipn 7 s1) in
       let s2 := skipn (N.to_nat sz) (skipn 7 s1) in
-      let '(d, bytes) := dec_bytes (N.to_nat chunk) (mkD low high cur buf ps) in
-      read_chunks f len bufsz (d_low d) (d_high d) (d_ps d) (remaining - chunk) s2 (acc ++ bytes)
+      let '(d, bytes) := dec_bytes (N.to_nat chunk) (mkD low high cur buf (chunk_reset ps)) in
+      read_chunks f len count (d_low d) (d_high d) (d_ps d) (remaining - chunk) s2 (acc ++ bytes)
     end
   end.
 
 (* Read(block of [count] bytes) on a fresh decoder *)
 Definition decode (ps0 : PS) (count : N) (s : list N) : dres :=
   if 1073741824 <? count then DInvalid else
-  read_chunks (N.to_nat count) (chunk_len count) (buf_size count) 0 TOP ps0 count s [].
+  read_chunks (N.to_nat count) (chunk_len_of count) count 0 TOP ps0 count s [].
 
 End BC.
+
+(* BinaryEntropyCodec.go: no reset, chunk_len / buf_size above, a chunk is refused when larger than the buffer *)
+Definition bin_accepts (count sz : N) : bool := negb (buf_size count <? sz).
+Definition bin_encode sa sb PS pget pupd := encode sa sb PS pget pupd (fun ps => ps) chunk_len buf_size.
+Definition bin_decode sa sb PS pget pupd := decode sa sb PS pget pupd (fun ps => ps) chunk_len bin_accepts.
+
+(* FPAQCodec.go: 4 MiB chunks, buffer of chunk + chunk/8 bytes, a chunk is refused when its size is >= 2 * len(block) *)
+Definition fpaq_chunk_len (count : N) : N := N.min count 4194304.
+Definition fpaq_buf_cap (count : N) : N := fpaq_chunk_len count + N.shiftr (fpaq_chunk_len count) 3.
+Definition fpaq_accepts (count sz : N) : bool := sz <? 2 * count.
